@@ -51,6 +51,19 @@ class Known:
                 return h
         return None
 
+    def match_solution(self, bench, ev, sop):
+        """create_solution with a Container as solvent whose non-enzyme content is below 1e4 rounding steps of the *base* unit
+        (1e-6 mol at the shipped precision): the library converts that total to mol and rounds it there."""
+        if sop is None:
+            return None
+        from fractions import Fraction as F
+        W = bench.world
+        m = W.alpha_container(sop.base)
+        moles = sum((a for n, a in m.contents.items() if not W.msubs[n].is_enzyme), F(0))
+        if 0 < moles < 10 ** 4 * F(1, 10 ** W.units.p):
+            return self._hit('solution_container_solvent_trace_moles', ('C19',))
+        return None
+
     def match_fill_to(self, bench, ev, t, solvent, unit):
         return None
 
